@@ -1,3 +1,222 @@
-import Chiritori.Spec.Holds
+import Chiritori.Lemmas.Time
+import Chiritori.Lemmas.Decision
+/-
+  C05 — Expiry decision: removed exactly when now >= `to` at the configured offset.
+
+  chrono's parser is *modelled* (Model/Time.lean); what is proved here is proved of that model:
+  * `calendar_step`, `calendar_origin`: the day count used for the instant is the proleptic Gregorian one;
+  * `canonical_parse`, `decision`: for every canonical `YYYY-MM-DD HH:MM:SS` and every offset `±HH:MM` / `±HHMM`
+    the element is ready exactly when `now ≥ epoch(to) − offset`; equality counts as expired;
+  * `missing_to`, `valueless_to` and the malformed-class lemmas: never ready;
+  * `monotone`: for a fixed element the decision only switches from kept to removed as time advances.
+-/
 namespace Chiritori.Props.C05
+open Chiritori Chiritori.Spec
+
+/-! ### the calendar is the Gregorian calendar -/
+theorem calendar_origin : daysFromCivil 1970 1 1 = 0 := daysFromCivil_epoch
+theorem calendar_step (x : Date) (h : x.valid) :
+    (nextDay x).valid ∧ daysFromCivil (nextDay x).y (nextDay x).m (nextDay x).d = daysFromCivil x.y x.m x.d + 1 :=
+  ⟨nextDay_valid x h, daysFromCivil_nextDay x h⟩
+
+/-! ### canonical spellings -/
+def renderTo (Y M D h m s : Nat) : List Char :=
+  d4 Y ++ ('-' :: (d2 M ++ ('-' :: (d2 D ++ (' ' :: (d2 h ++ (':' :: (d2 m ++ (':' :: d2 s)))))))))
+
+def renderOff (neg : Bool) (hh mm : Nat) (colon : Bool) : List Char :=
+  (if neg then '-' else '+') :: (d2 hh ++ ((if colon then [':'] else []) ++ d2 mm))
+
+def offSeconds (neg : Bool) (hh mm : Nat) : Int :=
+  if neg then -((hh * 3600 + mm * 60 : Nat) : Int) else ((hh * 3600 + mm * 60 : Nat) : Int)
+
+theorem scanOffset_render (neg : Bool) (hh mm : Nat) (colon : Bool) (h1 : hh < 100) (h2 : mm < 60) (rest : List Char) :
+    scanOffset (renderOff neg hh mm colon ++ rest) = some (offSeconds neg hh mm, rest) := by
+  have a1 : hh / 10 < 10 := by omega
+  have a2 : hh % 10 < 10 := by omega
+  have a3 : mm / 10 < 10 := by omega
+  have a4 : mm % 10 < 10 := by omega
+  have a5 : mm / 10 ≤ 5 := by omega
+  have hc : colonOrSpace ((if colon then [':'] else []) ++ (d2 mm ++ rest)) = d2 mm ++ rest := by
+    cases colon <;>
+      simp [colonOrSpace, d2, dch_ne_colon _ a3, notWs_dch _ a3]
+  have hsign : ((if neg = true then '-' else '+') = '+' ∨ (if neg = true then '-' else '+') = '-' ∨
+      (if neg = true then '-' else '+') = '−') := by cases neg <;> simp
+  unfold scanOffset renderOff
+  simp only [d2, List.cons_append, List.nil_append, List.append_assoc]
+  have hc' : colonOrSpace ((if colon = true then [':'] else []) ++ dch (mm / 10) :: dch (mm % 10) :: rest)
+      = dch (mm / 10) :: dch (mm % 10) :: rest := by simpa [d2] using hc
+  simp only [hsign, isDigit_dch _ a1, isDigit_dch _ a2, and_self, ite_true, hc', isDigit_dch _ a3,
+    isDigit_dch _ a4, digitVal_dch _ a1, digitVal_dch _ a2, digitVal_dch _ a3, digitVal_dch _ a4, a5]
+  unfold offSeconds
+  cases neg
+  · simp; omega
+  · simp; omega
+
+/-- the canonical spelling followed by anything: accepted iff nothing follows -/
+theorem canonical_parse_tail (Y M D h m s hh mm : Nat) (neg colon : Bool) (tail : List Char)
+    (hY : Y < 10000) (hM : M < 100) (hD : D < 100) (hh' : h < 100) (hm : m < 100) (hs : s < 100)
+    (hoh : hh < 100) (hom : mm < 60) :
+    parseFields (renderTo Y M D h m s ++ [' '] ++ renderOff neg hh mm colon ++ tail)
+      = if tail = [] then some ⟨(Y : Int), M, D, h, m, s, offSeconds neg hh mm⟩ else none := by
+  have hsp : isWhitespace ' ' = true := by decide
+  have hwp : isWhitespace '+' = false := by decide
+  have hwm : isWhitespace '-' = false := by decide
+  have hoff0 : ∀ r, trimStartWs (renderOff neg hh mm colon ++ r) = renderOff neg hh mm colon ++ r := by
+    intro r; cases neg <;> simp [renderOff, trimStartWs, hwp, hwm]
+  unfold parseFields renderTo
+  simp only [List.append_assoc, List.cons_append, List.nil_append]
+  rw [parseYear_d4 Y hY]
+  simp only [Option.bind_eq_bind, Option.bind_some, literal, ite_true]
+  rw [parseNum2_d2 M hM]
+  simp only [Option.bind_some, literal, ite_true]
+  rw [parseNum2_d2 D hD]
+  simp only [Option.bind_some]
+  have t1 : ∀ r, trimStartWs (' ' :: r) = trimStartWs r := by intro r; simp [trimStartWs, hsp]
+  rw [t1, trimStartWs_d2 h hh', parseNum2_d2 h hh']
+  simp only [Option.bind_some, literal, ite_true]
+  rw [parseNum2_d2 m hm]
+  simp only [Option.bind_some, literal, ite_true]
+  rw [parseNum2_d2 s hs]
+  simp only [Option.bind_some]
+  rw [t1, hoff0, hoff0, scanOffset_render neg hh mm colon hoh hom tail]
+  by_cases ht : tail = [] <;> simp [ht]
+
+theorem canonical_parse (Y M D h m s hh mm : Nat) (neg colon : Bool)
+    (hY : Y < 10000) (hM : M < 100) (hD : D < 100) (hh' : h < 100) (hm : m < 100) (hs : s < 100)
+    (hoh : hh < 100) (hom : mm < 60) :
+    parseFields (renderTo Y M D h m s ++ [' '] ++ renderOff neg hh mm colon)
+      = some ⟨(Y : Int), M, D, h, m, s, offSeconds neg hh mm⟩ := by
+  have := canonical_parse_tail Y M D h m s hh mm neg colon [] hY hM hD hh' hm hs hoh hom
+  simpa using this
+
+/-- trailing characters after the offset (a `to` value that already carries a zone, junk after the offset string) -/
+theorem trailing_rejected (Y M D h m s hh mm : Nat) (neg colon : Bool) (c : Char) (rest : List Char)
+    (hY : Y < 10000) (hM : M < 100) (hD : D < 100) (hh' : h < 100) (hm : m < 100) (hs : s < 100)
+    (hoh : hh < 100) (hom : mm < 60) :
+    chronoParse (renderTo Y M D h m s ++ [' '] ++ renderOff neg hh mm colon ++ c :: rest) = none := by
+  unfold chronoParse
+  rw [canonical_parse_tail Y M D h m s hh mm neg colon (c :: rest) hY hM hD hh' hm hs hoh hom]
+  simp
+
+theorem resolve_valid (Y M D h m s : Nat) (off : Int) (hY : Y < 10000) (hM1 : 1 ≤ M) (hM2 : M ≤ 12)
+    (hD1 : 1 ≤ D) (hD2 : D ≤ daysInMonth Y M) (hh : h < 24) (hm : m < 60) (hs : s < 60)
+    (ho1 : -86400 < off) (ho2 : off < 86400) :
+    resolve ⟨(Y : Int), M, D, h, m, s, off⟩ = some (epochOf Y M D h m s - off, 0) := by
+  have hd31 := daysInMonth_le (Y : Int) M
+  have hbm := daysBeforeMonth_le (Y : Int) M hM2
+  have lo : daysFromCivil minYear 1 1 = -96465292 := by decide +kernel
+  have hi : daysFromCivil maxYear 12 31 = 95026236 := by decide +kernel
+  have hy1 : ¬ (((Y : Int) < minYear) ∨ ((Y : Int) > maxYear)) := by unfold minYear maxYear; omega
+  have hs60 : s ≠ 60 := by omega
+  unfold resolve
+  simp only [hs60, ite_false]
+  rw [if_neg (by omega), if_neg (by omega), if_neg (by omega), if_neg (by omega), if_neg (by omega),
+    if_neg hy1, if_neg (by omega), if_neg (by omega)]
+  rw [lo, hi]
+  have hb : ¬ (epochOf Y M D h m s - off < -96465292 * 86400 ∨ epochOf Y M D h m s - off ≥ (95026236 + 1) * 86400) := by
+    unfold epochOf daysFromCivil daysBeforeYear
+    omega
+  rw [if_neg hb]
+
+/-- Main decision theorem: a time-limited element whose first `to` attribute has a canonical value, under a
+    canonical offset, is ready exactly when the current instant is at or after the wall-clock time read at that
+    offset; equality counts as expired. -/
+theorem decision (cfg : Cfg) (el : Element) (Y M D h m s hh mm : Nat) (neg colon : Bool)
+    (hto : attrValue el "to" = some (renderTo Y M D h m s))
+    (hoff : cfg.offset = renderOff neg hh mm colon)
+    (hY : Y < 10000) (hM1 : 1 ≤ M) (hM2 : M ≤ 12) (hD1 : 1 ≤ D) (hD2 : D ≤ daysInMonth Y M)
+    (hh' : h < 24) (hm : m < 60) (hs : s < 60) (hoh : hh < 24) (hom : mm < 60) :
+    timeIsRemoval cfg el = true ↔ cfg.now ≥ epochOf Y M D h m s - offSeconds neg hh mm := by
+  have hd31 := daysInMonth_le (Y : Int) M
+  have hp := canonical_parse Y M D h m s hh mm neg colon hY (by omega) (by omega) (by omega) (by omega) (by omega)
+    (by omega) hom
+  have ho : -86400 < offSeconds neg hh mm ∧ offSeconds neg hh mm < 86400 := by
+    unfold offSeconds; cases neg <;> simp <;> omega
+  have hr := resolve_valid Y M D h m s (offSeconds neg hh mm) hY hM1 hM2 hD1 hD2 hh' hm hs ho.1 ho.2
+  rw [timeIsRemoval_eq_expired]
+  unfold expired
+  rw [hto, hoff]
+  simp only
+  unfold chronoParse
+  rw [hp]
+  simp only [Option.bind_some, hr]
+  unfold instantLt
+  simp
+
+/-! ### never ready without a parseable `to` -/
+theorem missing_to (cfg : Cfg) (el : Element) (h : attrValue el "to" = none) : timeIsRemoval cfg el = false := by
+  rw [timeIsRemoval_eq_expired]; unfold expired; rw [h]
+
+theorem unparseable_never_ready (cfg : Cfg) (el : Element) (v : List Char) (hv : attrValue el "to" = some v)
+    (hp : chronoParse (v ++ [' '] ++ cfg.offset) = none) : timeIsRemoval cfg el = false := by
+  rw [timeIsRemoval_eq_expired]; unfold expired; rw [hv]; simp only; rw [hp]
+
+/-- out-of-range fields are rejected whatever the other fields are -/
+theorem resolve_out_of_range (f : Fields)
+    (h : f.month = 0 ∨ f.month > 12 ∨ f.day = 0 ∨ f.day > daysInMonth f.year f.month ∨ f.hour > 23 ∨
+      f.minute > 59 ∨ f.second > 60 ∨ f.off ≥ 86400 ∨ f.off ≤ -86400) : resolve f = none := by
+  unfold resolve
+  have := daysInMonth_le f.year f.month
+  repeat' split
+  all_goals first | rfl | omega
+
+/-- a date separator other than `-` (`2020/01/01 ...`) -/
+theorem bad_date_separator (Y : Nat) (hY : Y < 10000) (c : Char) (hc : c ≠ '-') (rest : List Char) :
+    parseFields (d4 Y ++ c :: rest) = none := by
+  unfold parseFields
+  rw [parseYear_d4 Y hY]
+  simp [literal, hc]
+
+/-- anything but blanks and digits between date and time (`2020-01-01T00:00:00`), or no time at all -/
+theorem bad_date_time_separator (Y M D : Nat) (hY : Y < 10000) (hM : M < 100) (hD : D < 100) (c : Char)
+    (hc1 : isWhitespace c = false) (hc2 : isDigit c = false) (rest : List Char) :
+    parseFields (d4 Y ++ ('-' :: (d2 M ++ ('-' :: (d2 D ++ c :: rest))))) = none := by
+  unfold parseFields
+  rw [parseYear_d4 Y hY]
+  simp only [Option.bind_eq_bind, Option.bind_some, literal, ite_true]
+  rw [parseNum2_d2 M hM]
+  simp only [Option.bind_some, literal, ite_true]
+  rw [parseNum2_d2 D hD]
+  simp only [Option.bind_some]
+  have : parseNum2 (trimStartWs (c :: rest)) = none := by
+    simp [parseNum2, trimStartWs, hc1, scanNumber, scanDigits, hc2]
+  rw [this]
+  rfl
+
+/-! ### monotonicity -/
+theorem monotone (cfg : Cfg) (el : Element) (now' : Int) (h : cfg.now ≤ now')
+    (hr : timeIsRemoval cfg el = true) : timeIsRemoval { cfg with now := now' } el = true := by
+  rw [timeIsRemoval_eq_expired] at hr ⊢
+  unfold expired at hr ⊢
+  cases hv : attrValue el "to" with
+  | none => rw [hv] at hr; simp at hr
+  | some v =>
+    rw [hv] at hr
+    simp only at hr ⊢
+    cases hp : chronoParse (v ++ [' '] ++ cfg.offset) with
+    | none => rw [hp] at hr; simp at hr
+    | some ex =>
+      rw [hp] at hr
+      simp only [instantLt, Bool.not_eq_true', Bool.or_eq_false_iff, decide_eq_false_iff_not, Bool.and_eq_false_iff,
+        beq_eq_false_iff_ne] at hr ⊢
+      obtain ⟨h1, h2⟩ := hr
+      refine ⟨by omega, ?_⟩
+      rcases h2 with h2 | h2
+      · by_cases he : now' = ex.1
+        · right
+          have : cfg.now < ex.1 ∨ cfg.now = ex.1 := by omega
+          rcases this with h3 | h3
+          · exact absurd h3 h1
+          · exact absurd h3 h2
+        · left; exact he
+      · right; exact h2
+
+/-! Non-vacuity: the boundary second, at +09:00. 2000-01-01 00:00:00 +09:00 = 946652400. -/
+example : chronoParse "2000-01-01 00:00:00 +09:00".toList = some (946652400, 0) := by decide +kernel
+example : chronoParse "2021-02-29 00:00:00 +00:00".toList = none := by decide +kernel
+example : chronoParse "2020-01-01T00:00:00 +00:00".toList = none := by decide +kernel
+example : chronoParse "2020-01-01 00:00:00 +24:00".toList = none := by decide +kernel
+example : chronoParse "2020-01-01 00:00:00 +09:60".toList = none := by decide +kernel
+example : chronoParse "2020-01-01 00:00:00 +09:00 +00:00".toList = none := by decide +kernel
+
 end Chiritori.Props.C05
